@@ -11,18 +11,18 @@ import (
 
 // op is one generated operation. All fields are plain data so that a case can be written into a replay file.
 type op struct {
-	Kind   string `json:"kind"`
-	Tenant int    `json:"tenant"`
-	Task   string `json:"task,omitempty"`
-	Coll   int64  `json:"coll,omitempty"`
-	Chan   string `json:"chan,omitempty"`
+	Kind   string   `json:"kind"`
+	Tenant int      `json:"tenant"`
+	Task   string   `json:"task,omitempty"`
+	Coll   int64    `json:"coll,omitempty"`
+	Chan   string   `json:"chan,omitempty"`
 	Chans  []string `json:"chans,omitempty"`
-	Msg    string `json:"msg,omitempty"`
-	Serial int64  `json:"serial"`
-	State  int    `json:"state,omitempty"`
-	Olds   []int  `json:"olds,omitempty"`
-	WithOp bool   `json:"with_op,omitempty"`
-	WithTg bool   `json:"with_target,omitempty"`
+	Msg    string   `json:"msg,omitempty"`
+	Serial int64    `json:"serial"`
+	State  int      `json:"state,omitempty"`
+	Olds   []int    `json:"olds,omitempty"`
+	WithOp bool     `json:"with_op,omitempty"`
+	WithTg bool     `json:"with_target,omitempty"`
 	// fault plan (mo_delete_task_fault)
 	FaultVia   string `json:"fault_via,omitempty"` // "sql" (fakesql call index) | "wrap" (store-call wrapper)
 	FaultAt    int    `json:"fault_at,omitempty"`
@@ -201,14 +201,40 @@ func genCase(seed int64, backend string, idx int) *caseSpec {
 		}
 	}
 	for len(cs.Ops) < total {
-		cs.Ops = append(cs.Ops, g.apply(genOp(r, cs, g, next)))
+		o := genOp(r, cs, g, next)
+		// DeleteTask is only interesting on a task that has its record and some checkpoints: build them first
+		if (o.Kind == "mo_delete_task" || o.Kind == "mo_delete_task_fault") && len(cs.Ops)+4 <= total {
+			k := tk(o.Tenant, o.Task)
+			if !g.info[k] {
+				cs.Ops = append(cs.Ops, g.apply(op{Kind: "put_info", Tenant: o.Tenant, Task: o.Task, Serial: next(), State: r.Intn(3)}))
+			}
+			for len(g.pos[k]) < 2 {
+				coll := cs.Colls[r.Intn(len(cs.Colls))]
+				cs.Ops = append(cs.Ops, g.apply(genUpdatePos(r, cs, o.Tenant, o.Task, coll, next())))
+				if len(cs.Colls) < 2 {
+					break
+				}
+			}
+			o.Serial = next()
+		}
+		cs.Ops = append(cs.Ops, g.apply(o))
 	}
 	// concurrent epilogue on disjoint task ids
 	if r.Intn(100) < 35 {
 		k := 1 + r.Intn(4)
 		ids := []string{"w1", "w10", "w100", "w1_"}
 		for c := 0; c < k; c++ {
+			// clients work under roots without pattern characters where there is one (bystanders keep theirs)
+			var plainRoots []int
+			for ti, rt := range cs.Roots {
+				if !hasPat(rt) {
+					plainRoots = append(plainRoots, ti)
+				}
+			}
 			cl := concClient{Tenant: r.Intn(nT), Task: ids[c]}
+			if len(plainRoots) > 0 {
+				cl.Tenant = plainRoots[r.Intn(len(plainRoots))]
+			}
 			n := 3 + r.Intn(6)
 			exists := false
 			for i := 0; i < n; i++ {
